@@ -44,6 +44,12 @@ F_WHAT = ("FCPTPA.fit on an exactly zero residual (all-zero data, or data remove
           "np.ones((4,4,4)) with n_components=2, alpha_range (1e-6,1e-2)) divides 0/0 in _update_vector: that component and "
           "all later ones, the scores and the reconstruction are NaN")
 
+FID2 = "F-C17-zero-update"
+F2_WHAT = ("FCPTPA.fit: an update of u returns EXACTLY the zero vector although the residual is not zero (its projection on the "
+           "current v (x) w vanishes exactly in floating point: seen for a single-spike array and for a constant array with "
+           "smoothing ranges up to 1e6, n_components=5, max_iteration=2), and the following update divides 0/0: that component "
+           "and all later ones are NaN")
+
 NEVER = 1000
 RAW_LIMIT = 40
 MAXLEVEL = 45
@@ -467,8 +473,23 @@ def check_real(rep, run, todo, F, idx, kind, X, p):
             rep.known_finding(FID, F_WHAT, {**info, "zero_residual_at_component": zero_at})
             K_ok = zero_at
         else:
-            rep.violation("non-finite scores/eigenimages although no residual was exactly zero", info)
-            return
+            # second defect model (F-C17-zero-update): the residual is not zero, but in the first update of the first bad
+            # component the new u is EXACTLY the zero vector (the projection of the residual on the current v (x) w
+            # vanishes exactly in floating point) with finite inputs; the next normalisation divides 0/0
+            zu = None
+            if first_bad < len(comps) and comps[first_bad]["calls"]:
+                for j, (vin, vout) in enumerate(comps[first_bad]["calls"]):
+                    if not all(np.isfinite(np.asarray(v, float)).all() for v in vout):
+                        if all(np.isfinite(np.asarray(v, float)).all() for v in vin) and not np.any(np.asarray(vout[0])):
+                            zu = j
+                        break
+            if zu is not None:
+                rep.known_finding(FID2, F2_WHAT, {**info, "component": first_bad, "update": zu})
+                K_ok = first_bad
+            else:
+                rep.violation("non-finite scores/eigenimages although no residual was exactly zero and no update returned an "
+                              "exactly zero vector", info)
+                return
     else:
         K_ok = K
     # ---- per component: unit rank-one, coefficient = projection of the residual, deflation
